@@ -9,6 +9,7 @@ counts as proved only when a `theorem` of exactly that proposition appears below
 import ZV.Model.Host
 import ZV.Model.Abi
 import ZV.Generated.Roles
+import ZV.Proofs.Host
 
 namespace ZV.Props.C06
 open ZV.Host ZV.Abi ZV.Generated ZV.Numeric
@@ -140,5 +141,141 @@ theorem arity_matches_abi : ∀ r ∈ roles, (r.abi.opParams).map List.length = 
 theorem source_names_nodup : (roles.map (·.source)).Nodup := by decide +kernel
 
 theorem host_names_nodup : (roles.map (·.host)).Nodup := by decide +kernel
+
+/-! ### Text and number contracts -/
+
+theorem splitAtScalar_spec : Statement.splitAtScalar_spec :=
+  fun s a b i => ZV.Host.splitAtScalar_iff s a b i
+
+theorem str_split_at_contract : Statement.str_split_at_contract :=
+  fun s z σ k₁ k₂ => ZV.Host.str_split_at_contract s z σ k₁ k₂
+
+theorem str_get_contract : Statement.str_get_contract :=
+  fun s z σ k₁ k₂ => ZV.Host.str_get_contract s z σ k₁ k₂
+
+theorem fromCodepoint_spec : Statement.fromCodepoint_spec :=
+  fun n => ZV.Host.fromCodepoint_spec n
+
+theorem parseI64_spec : Statement.parseI64_spec := ZV.Host.parseI64_spec
+
+theorem splitOnce_spec : Statement.splitOnce_spec :=
+  fun s sep => ⟨ZV.Host.splitOnce_eq_none s sep, fun a b h => ZV.Host.splitOnce_eq_some s sep a b h⟩
+
+theorem std_streams_never_close : Statement.std_streams_never_close :=
+  fun σ k₁ k₂ => ZV.Host.std_streams_never_close σ k₁ k₂
+
+/-! ### UTF-8 -/
+
+theorem utf8_roundtrip : Statement.utf8_roundtrip :=
+  ⟨ZV.Host.decodeUtf8_encodeUtf8, ZV.Host.encodeUtf8_of_decodeUtf8⟩
+
+theorem lengths_spec : Statement.lengths_spec :=
+  fun s => ⟨(ZV.Host.length_encodeUtf8 s).symm, ZV.Host.byteLen_bounds s⟩
+
+/-! ### The handle table -/
+
+theorem handle_invariant : Statement.handle_invariant :=
+  ⟨ZV.Host.inv_init, fun ops σ hi => ZV.Host.run_inv ops σ hi⟩
+
+theorem closed_stays_closed : Statement.closed_stays_closed :=
+  fun ops σ h _ =>
+    ⟨fun hlt hc => ZV.Host.run_closedR ops σ h hlt hc,
+     fun hlt hc => ZV.Host.run_closedW ops σ h hlt hc,
+     fun h0 hc k₁ k₂ k₃ => ZV.Host.closed_reader_ops σ h h0 hc k₁ k₂ k₃,
+     fun h0 h1 hc b k₁ k₂ => ZV.Host.closed_writer_ops σ h h0 h1 hc b k₁ k₂⟩
+
+/-! ### The arithmetic trap -/
+
+theorem trap_only_div_by_zero : Statement.trap_only_div_by_zero :=
+  fun role args σ h => ZV.Host.trap_only_div_by_zero role args σ h
+
+/-! ### Every role honours its classifier -/
+
+/-- Every row of the regenerated table is recognised by the checker `rowOk` as one of the shapes
+proved in `ZV/Proofs/Host.lean` (re-evaluated by the kernel whenever the table changes). -/
+theorem all_rows_recognised : ∀ r ∈ roles, ZV.Host.rowOk r.source r.abi = true := by decide +kernel
+
+theorem hostOp_respects_abi : Statement.hostOp_respects_abi :=
+  fun r hr ps res hps hres args σ hargs =>
+    ZV.Host.rowOk_sound (all_rows_recognised r hr) ps res hps hres args σ hargs
+
+/-! ### Non-vacuity: concrete, non-trivial instances -/
+namespace Demo
+
+theorem split_at_mid :
+    (hostOp "str_split_at" [.str ['h', 'é', 'λ'], i64 2, .thunk 7, .thunk 8] {}).2 =
+      .call 3 [.str ['h', 'é'], .str ['λ']] := by decide
+
+theorem split_at_negative_or_past_end :
+    (hostOp "str_split_at" [.str ['h', 'é', 'λ'], i64 (-1), .thunk 7, .thunk 8] {}).2 = .call 2 [] ∧
+    (hostOp "str_split_at" [.str ['h', 'é', 'λ'], i64 4, .thunk 7, .thunk 8] {}).2 = .call 2 [] ∧
+    (hostOp "str_get" [.str ['h', 'é', 'λ'], i64 3, .thunk 7, .thunk 8] {}).2 = .call 2 [] ∧
+    (hostOp "str_get" [.str ['h', 'é', 'λ'], i64 2, .thunk 7, .thunk 8] {}).2 = .call 3 [.chr 'λ'] := by
+  decide
+
+theorem codepoints :
+    fromCodepoint 0xD800 = none ∧ fromCodepoint 0x110000 = none ∧ fromCodepoint (-1) = none ∧
+    fromCodepoint 0x3BB = some 'λ' ∧ (fromCodepoint 0x10FFFF).isSome = true := by decide
+
+theorem parse_examples :
+    Decimal.parseI64 ['+', '7'] = some 7 ∧ Decimal.parseI64 ['-', '0', '0', '7'] = some (-7) ∧
+    Decimal.parseI64 "9223372036854775808".toList = none ∧
+    Decimal.parseI64 "-9223372036854775808".toList = some (-9223372036854775808) ∧
+    Decimal.parseI64 ['1', ' '] = none := by decide
+
+theorem lengths_example : byteLen ['h', 'é', 'λ'] = 5 ∧ scalarLen ['h', 'é', 'λ'] = 3 ∧
+    encodeUtf8 ['h', 'é', 'λ'] = [104, 195, 169, 206, 187] := by decide +kernel
+
+theorem invalid_utf8_rejected : decodeUtf8 [0xFF] = none ∧ decodeUtf8 [0xC3] = none ∧
+    decodeUtf8 [195, 169] = some ['é'] := by decide +kernel
+
+theorem split_once_example :
+    splitOnce ['a', '=', 'b', '=', 'c'] '=' = some (['a'], ['b', '=', 'c']) ∧ splitOnce ['a'] '=' = none := by
+  decide
+
+
+/-- Division by zero is the arithmetic trap, at a concrete role of the table. -/
+theorem div_by_zero_traps (σ : Host) :
+    (hostOp "int8_div" [.int .i8 7#8, .int .i8 0#8] σ).2 = .trap ∧
+    (hostOp "int8_div" [.int .i8 7#8, .int .i8 2#8] σ).2 = .ret (.int .i8 3#8) ∧
+    (hostOp "uint8_mod" [.int .u8 7#8, .int .u8 0#8] σ).2 = .trap := by
+  have h1 : "int8_div".splitOn "_" = ["int8", "div"] := by rw [ZV.Host.splitOn_underscore]; decide +kernel
+  have h2 : "uint8_mod".splitOn "_" = ["uint8", "mod"] := by rw [ZV.Host.splitOn_underscore]; decide +kernel
+  refine ⟨?_, ?_, ?_⟩
+  · rw [ZV.Host.hostOp_numeric (by decide), ZV.Host.numericOp_int h1 (t := .i8) (by decide)]; rfl
+  · rw [ZV.Host.hostOp_numeric (by decide), ZV.Host.numericOp_int h1 (t := .i8) (by decide)]; rfl
+  · rw [ZV.Host.hostOp_numeric (by decide), ZV.Host.numericOp_int h2 (t := .u8) (by decide)]; rfl
+
+/-- The checker behind `hostOp_respects_abi` is not trivially true: it rejects a role with the wrong
+classifier, an unknown operation, and an I/O role declared with a different shape. -/
+theorem checker_rejects :
+    ZV.Host.rowOk "int8_add" (ZV.Host.toStrAbi (.int .i8)) = false ∧
+    ZV.Host.rowOk "int8_add" (ZV.Host.arithAbi (.int .i16)) = false ∧
+    ZV.Host.rowOk "int8_pow" (ZV.Host.arithAbi (.int .i8)) = false ∧
+    ZV.Host.rowOk "float32_mod" (ZV.Host.arithAbi .f32) = false ∧
+    ZV.Host.rowOk "io_read" (.thunk .os) = false ∧
+    ZV.Host.rowOk "int8_add" (ZV.Host.arithAbi (.int .i8)) = true := by decide +kernel
+
+/-- A script on the handle table: open a file (handle 1), close it, read from it (`Closed`), open the
+file again (handle 2, never 1 again). -/
+theorem handle_script :
+    let σ₀ : Host := { files := [(['f'], [104, 105])] }
+    let open1 := hostOp "fs_open_reader" [.str ['f'], .thunk 0, .thunk 1] σ₀
+    let close1 := hostOp "io_close_reader" [.reader 1, .thunk 0, .thunk 1] open1.1
+    let read1 := hostOp "io_read_all" [.reader 1, .thunk 0, .thunk 1] close1.1
+    let open2 := hostOp "fs_open_reader" [.str ['f'], .thunk 0, .thunk 1] read1.1
+    let read2 := hostOp "io_read_all" [.reader 2, .thunk 0, .thunk 1] open2.1
+    open1.2 = .call 2 [.reader 1] ∧ close1.2 = .call 2 [] ∧ read1.2 = closedError 1 ∧
+    open2.2 = .call 2 [.reader 2] ∧ read2.2 = .call 2 [.bytes [104, 105]] ∧
+    Statement.HandleInv read2.1 := by
+  refine ⟨by decide, by decide, by decide, by decide, by decide, ?_⟩
+  have h0 : Statement.HandleInv { files := [(['f'], [104, 105])] } := by
+    refine ⟨Nat.le_refl _, Nat.le_refl _, ?_, ?_, ?_, ?_⟩ <;> simp
+  exact (handle_invariant.2
+    [("fs_open_reader", [.str ['f'], .thunk 0, .thunk 1]), ("io_close_reader", [.reader 1, .thunk 0, .thunk 1]),
+     ("io_read_all", [.reader 1, .thunk 0, .thunk 1]), ("fs_open_reader", [.str ['f'], .thunk 0, .thunk 1]),
+     ("io_read_all", [.reader 2, .thunk 0, .thunk 1])] _ h0).1
+
+end Demo
 
 end ZV.Props.C06
